@@ -3,7 +3,9 @@
 P=$1; ID=$2; TIER=${3:-quick}
 cd /repo || exit 9
 if ! git diff --quiet; then echo "repo dirty"; exit 9; fi
-git apply --3way "$P" 2>/tmp/seedapply.err || git apply "$P" || { echo "PATCH DOES NOT APPLY"; cat /tmp/seedapply.err; git checkout -- . ; exit 8; }
+if ! git apply "$P" 2>/tmp/seedapply.err; then
+  if ! git apply --3way "$P" 2>>/tmp/seedapply.err; then echo "PATCH DOES NOT APPLY"; cat /tmp/seedapply.err; git reset -q --hard HEAD; exit 8; fi
+fi
 git reset -q
 cd /verif
 VERIF_SEED=${VERIF_SEED:-1} timeout ${SEED_TIMEOUT:-900} ./check.sh $ID $TIER > /tmp/seedtest.$ID.out 2>&1
